@@ -1005,6 +1005,8 @@ def canon_world(w):
                         ctl.failed_transaction_count,
                         ctl.current_transaction_count,
                         ctl.current_failed_transaction_count,
+                        # when the hourly counters restart next (None until the control was first consulted)
+                        str(getattr(ctl, "_next_hour", None)),
                     )
                 )
     # the driver's own index-addressed memory (orders / trades an action letter can name), including orders
